@@ -65,6 +65,8 @@ def spaces(tier):
     def gen_sep():
         for ch in SEPZOO:
             yield ("sepzoo", ch)
+        for N in (800, 801, 1000, 1001, 1601, 2049):
+            yield ("bigtab", N)
 
     def gen_two_tables():
         types = ("t3", "i")
@@ -95,7 +97,7 @@ def spaces(tier):
         Space("all-sequences-N-over-N", gen_seq, "every sequence of length N over N symbols, N=2..6 (quick) / 2..7 (thorough) x 4 relabellings x {list, ndarray, Series}; pc, pc_n", shards=32),
         Space("all-sample-pairs", gen_pairs, "all (a,b), |a|,|b| <= 4 over 3 symbols (quick) / <= 5 over 4 symbols (thorough); one case = one a against every b"),
         Space("all-small-tables", gen_tables, "tables of 2..4 rows x 1..3(4) typed columns over text cells {A,AB,BA,empty} / {A,AB,empty} and integer cells {1,11}; empty spelled '' / None / NaN", shards=32),
-        Space("separator-like-characters-in-cells", gen_sep, "for each of %d separator-like characters c: rows (AcB, C) / (A, BcC) / (Ac, B) / (A, cB) in 2- and 3-column tables (one and two tables): distinct rows never coincide" % len(SEPZOO)),
+        Space("separator-like-characters-in-cells", gen_sep, "for each of %d separator-like characters c: rows (AcB, C) / (A, BcC) / (Ac, B) / (A, cB) in 2- and 3-column tables (one and two tables): distinct rows never coincide; tables of 800, 801, 1000, 1001, 1601, 2049 rows (7 distinct rows cycling, the last row equal to the first)" % len(SEPZOO), per_case=True),
         Space("all-small-table-pairs", gen_two_tables, "pairs of 1..2(3)-row tables over (text{A,AB,empty}, int{1,11}) and (text, always-missing column); every pair of spellings of 'missing' (None, '', NaN) across the two tables"),
     ]
 
@@ -234,6 +236,27 @@ def check_case(case, acc):
         _check_table(acc, ("table",) + case[1:3], spell=case[3])
     elif kind == "sepzoo":
         _check_sep(acc, case)
+    elif kind == "bigtab":
+        # tables of about a thousand rows: rows cycle through 7 distinct rows, the last row repeats the first one
+        import pandas as pd
+        import pyrepseq
+        N = case[1]
+        acc.cls("table-of-about-1000-rows")
+        base = [("A", "x"), ("A", "y"), ("B", "x"), ("AB", ""), ("", "AB"), ("C", "z"), ("D", "z")]
+        rows = [base[(i * 3 + i // 7) % 7] for i in range(N - 1)] + [("E", "only-twice")]
+        rows[0] = ("E", "only-twice")
+        exp = ref_pc_counts([rows.count(r_) for r_ in set(rows)])
+        other = rows[N // 2:] + [("F", "q")]
+        cnt, cnt2 = {r_: rows.count(r_) for r_ in set(rows)}, {r_: other.count(r_) for r_ in set(other)}
+        exp2 = Fraction(sum(c_ * cnt2.get(r_, 0) for r_, c_ in cnt.items()), len(rows) * len(other))
+        df, df2 = pd.DataFrame(rows, columns=["c0", "c1"]), pd.DataFrame(other, columns=["c0", "c1"])
+        for fn, args, e in (("pc", (df,), exp), ("pc_joint", (df, ["c0", "c1"]), exp), ("pc", (df, df2), exp2), ("pc", (df2, df), exp2), ("pc_joint", (df, ["c0", "c1"], df2), exp2),
+                            ("pc", (([r_[0] for r_ in rows], [r_[1] for r_ in rows]),), exp)):
+            r = acc.call(getattr(pyrepseq, fn), *args)
+            if not _exact(r, e):
+                acc.fail("%s/table-of-about-1000-rows" % fn, case, e, r, note="%d rows" % N)
+                return
+        acc.ok(("bigtab", N, float(exp)), nontrivial=True)
     elif kind == "tables2":
         _check_tables2(acc, case)
     else:
@@ -376,6 +399,13 @@ def _check_tables2(acc, case):
             acc.fail("pc/two-tables", case, exp, r)
         else:
             acc.ok(("pct2", float(exp)), nontrivial=exp > 0)
+        # every single column selected alone: the joint form on one column is pc of that column of the two tables
+        for ci in range(len(cols)):
+            e1 = ref_pc2([(row[ci],) for row in t1], [(row[ci],) for row in t2])
+            r = acc.call(pyrepseq.pc_joint, d1, [cols[ci]], d2)
+            if not _exact(r, e1):
+                acc.fail("pc_joint/two-tables/single-column-selected", case, e1, r, note="on=[%s], missing spelled %s / %s" % (cols[ci], sp, sp2))
+                return
         # the second table may store the same named columns in another physical order
         d2r = d2[list(d2.columns)[::-1]]
         r = acc.call(pyrepseq.pc_joint, d1, cols, d2r)
